@@ -1,5 +1,6 @@
 import ScalesModel.Proofs.HeapMember
 import ScalesModel.Adapter.LB
+import ScalesModel.Proofs.EmaLemmas
 
 /-!
   Invariants of the aperture model (Model/Aperture.lean) that C05 and C06 rest on:
@@ -30,7 +31,9 @@ def adjGood (cfg : Cfg) (r : AdjRec) : Prop :=
   (r.size' = r.size + 1 → r.size' ≤ cfg.maxSize) ∧
   (LB.tableExpand cfg r = true → r.size' = r.size + 1) ∧
   (LB.tableExpand cfg r = false → LB.tableContract cfg r = true → r.size' + 1 = r.size) ∧
-  (LB.tableExpand cfg r = false → LB.tableContract cfg r = false → r.size' = r.size)
+  (LB.tableExpand cfg r = false → LB.tableContract cfg r = false → r.size' = r.size) ∧
+  -- the sample was not taken at an earlier time than the one before it
+  0 ≤ r.dt
 
 def LogOk (cfg : Cfg) (a : AS) : Prop := ∀ r ∈ a.adjLog, adjGood cfg r
 
@@ -334,19 +337,25 @@ theorem adjustWith_spec (cfg : Cfg) {a : AS} (inv : PInv cfg a) (hap : cfg.apert
   unfold AS.adjustWith
   simp only
   set a1 : AS := { a with total := a.total + amount,
-                          ema := some (Ema.update a.ema i.w ((a.total + amount : Int) : Rat)),
+                          ema := some i.avg, clock := MonoClock.sample a.clock i.now,
                           adjIn := rest, bad := a.bad || missing } with ha1
   have s1 : Stable cfg a a1 := Stable.of_same inv rfl rfl rfl rfl
   have hnh : a1.numHealthy = a.numHealthy := rfl
+  have hdt : (0 : Rat) ≤ (if a.ema.isSome = true then MonoClock.sample a.clock i.now - a.clock else 0) := by
+    split
+    · exact sub_nonneg.2 (MonoClock.le_sample _ _)
+    · exact le_refl _
   -- the branch taken
   have key : ∀ a2 : AS, Stable cfg a1 a2 → a2.adjLog = a1.adjLog →
       (a1.decision cfg i.avg = .expand → a2.hs.size = a.hs.size + 1) →
       (a1.decision cfg i.avg = .contract → a.pending = [] → cfg.minSize < a.numHealthy → a2.hs.size + 1 = a.hs.size) →
       (a1.decision cfg i.avg = .contract → (a.pending ≠ [] ∨ a.numHealthy ≤ cfg.minSize) → a2.hs.size = a.hs.size) →
       (a1.decision cfg i.avg = .stay → a2.hs.size = a.hs.size) →
-      ∀ ok : Bool, Stable cfg a { a2 with adjLog := a2.adjLog ++
-        [⟨a.hs.size, a.idle.length, a.pending.length, a.numHealthy, i.avg, a2.hs.size, a2.idle.length, ok⟩] } := by
-    intro a2 s2 hl2 hE hC1 hC2 hS ok
+      ∀ (ok : Bool) (dt w : Rat) (prev : Option Rat) (sample : Int), 0 ≤ dt →
+        Stable cfg a { a2 with adjLog := a2.adjLog ++
+        [⟨a.hs.size, a.idle.length, a.pending.length, a.numHealthy, i.avg, a2.hs.size, a2.idle.length, ok,
+          dt, w, prev, sample⟩] } := by
+    intro a2 s2 hl2 hE hC1 hC2 hS ok dt w prev sample hdt0
     have s12 := s1.trans s2
     refine ⟨⟨s12.inv.wf, s12.inv.nodup, s12.inv.kind⟩, s12.mem, s12.servers, s12.lbd, ?_⟩
     intro h0 r hr
@@ -369,7 +378,7 @@ theorem adjustWith_spec (cfg : Cfg) {a : AS} (inv : PInv cfg a) (hap : cfg.apert
       | expand =>
         have h := hE'.1 hd
         have hsz := hE hd
-        refine ⟨fun _ => by omega, fun _ => hsz, ?_, ?_⟩
+        refine ⟨fun _ => by omega, fun _ => hsz, ?_, ?_, hdt0⟩
         · intro hne; exact absurd ⟨h.1, hidle.1 h.2.1, h.2.2⟩ hne
         · intro hne; exact absurd ⟨h.1, hidle.1 h.2.1, h.2.2⟩ hne
       | contract =>
@@ -378,14 +387,14 @@ theorem adjustWith_spec (cfg : Cfg) {a : AS} (inv : PInv cfg a) (hap : cfg.apert
           rintro ⟨x, y, z⟩; exact h.1 ⟨x, hidle.2 y, z⟩
         by_cases hc : a.pending = [] ∧ cfg.minSize < a.numHealthy
         · have hsz := hC1 hd hc.1 hc.2
-          refine ⟨fun h' => by omega, fun h' => absurd h' hne, fun _ _ => hsz, ?_⟩
+          refine ⟨fun h' => by omega, fun h' => absurd h' hne, fun _ _ => hsz, ?_, hdt0⟩
           intro _ h'
           exact absurd ⟨hne, h.2.1, h.2.2, hpend.1 hc.1, hc.2⟩ h'
         · have hsz := hC2 hd (by
             by_cases hp : a.pending = []
             · right; exact Nat.le_of_not_lt (fun h' => hc ⟨hp, h'⟩)
             · left; exact hp)
-          refine ⟨fun h' => by omega, fun h' => absurd h' hne, ?_, fun _ _ => hsz⟩
+          refine ⟨fun h' => by omega, fun h' => absurd h' hne, ?_, fun _ _ => hsz, hdt0⟩
           rintro _ ⟨_, _, _, p, q⟩
           exact absurd ⟨hpend.2 p, q⟩ hc
       | stay =>
@@ -394,7 +403,7 @@ theorem adjustWith_spec (cfg : Cfg) {a : AS} (inv : PInv cfg a) (hap : cfg.apert
           rintro ⟨x, y, z⟩
           have := hE'.2 ⟨x, hidle.2 y, z⟩
           rw [hd] at this; cases this
-        refine ⟨fun h' => by omega, fun h' => absurd h' hnE, ?_, fun _ _ => hsz⟩
+        refine ⟨fun h' => by omega, fun h' => absurd h' hnE, ?_, fun _ _ => hsz, hdt0⟩
         rintro _ ⟨_, p, q, _, _⟩
         have := hC'.2 ⟨fun h' => hnE ⟨h'.1, hidle.1 h'.2.1, h'.2.2⟩, p, q⟩
         rw [hd] at this; cases this
@@ -403,11 +412,11 @@ theorem adjustWith_spec (cfg : Cfg) {a : AS} (inv : PInv cfg a) (hap : cfg.apert
     obtain ⟨st, lg, _, h1⟩ := tryExpand_spec cfg s1.inv false
     have hidle : a1.idle ≠ [] := ((decision_expand_iff cfg a1 i.avg).1 hd).2.1
     exact key _ st lg (fun _ => (h1 hidle).1) (fun h => by rw [hd] at h; cases h)
-      (fun h => by rw [hd] at h; cases h) (fun h => by rw [hd] at h; cases h) _
+      (fun h => by rw [hd] at h; cases h) (fun h => by rw [hd] at h; cases h) _ _ _ _ _ hdt
   | contract =>
     obtain ⟨st, lg, h1, h2⟩ := contract_spec cfg s1.inv hap false
     have hsz : cfg.minSize < a.hs.size := ((decision_contract_iff cfg a1 i.avg).1 hd).2.2
-    refine key _ st lg (fun h => by rw [hd] at h; cases h) ?_ ?_ (fun h => by rw [hd] at h; cases h) _
+    refine key _ st lg (fun h => by rw [hd] at h; cases h) ?_ ?_ (fun h => by rw [hd] at h; cases h) _ _ _ _ _ hdt
     · intro _ hp hh
       exact (h1 (Or.inl hp) hh (contractPick_some hp (by show 0 < a.hs.size; omega))).1
     · rintro _ (hp | hh)
@@ -415,7 +424,7 @@ theorem adjustWith_spec (cfg : Cfg) {a : AS} (inv : PInv cfg a) (hap : cfg.apert
       · exact (h2 (Or.inr hh)).1
   | stay =>
     exact key _ (Stable.refl s1.inv) rfl (fun h => by rw [hd] at h; cases h) (fun h => by rw [hd] at h; cases h)
-      (fun h => by rw [hd] at h; cases h) (fun _ => rfl) _
+      (fun h => by rw [hd] at h; cases h) (fun _ => rfl) _ _ _ _ _ hdt
 theorem adjust_spec (cfg : Cfg) {a : AS} (inv : PInv cfg a) (hap : cfg.aperture = true) (amount : Int) :
     Stable cfg a (a.adjust cfg amount) := by
   unfold AS.adjust
